@@ -231,7 +231,8 @@ def slice_(val: Any, start: Any, length: Any = 1) -> Union[str, list[object]]:
         length = 1
 
     _start = _slice_arg(start)
-    _length = _slice_arg(length)
+    # A negative length selects nothing. It does not count from the end of _val_.
+    _length = max(_slice_arg(length), 0)
     end: Optional[int] = _start + _length
 
     # A negative start index and a length that exceeds the theoretical length
